@@ -215,20 +215,21 @@ def run_units(ctx, exe, args, total, log_path, mode, timeout=1500):
         d = vlib.classify_death(rc, se[-20000:] if rc == 71 else se)
         if d is None or (rc == 1 and sums):
             break
-        reset, sched = None, None
+        reset, sched, dthread = None, None, 0
         for ln in open(log_path, errors="replace").read()[-(1 << 20):].splitlines():
             if '"e":"Reset"' in ln:
                 try:
-                    reset, sched = json.loads(ln), None
+                    reset, sched, dthread = json.loads(ln), None, 0
                 except Exception:
                     pass
-            elif '"e":"Deadlock"' in ln:
+            elif '"e":"Deadlock"' in ln or '"e":"DeathSched"' in ln:
                 try:
-                    sched = json.loads(ln).get("sched")
+                    j = json.loads(ln)
+                    sched, dthread = j.get("sched"), j.get("t", 0)
                 except Exception:
                     pass
         x = reset.get("x", k) if reset else k
-        d.update(x=x, k=(reset or {}).get("k", 0), scn=(reset or {}).get("scn"), sched=sched or [], thread=0, mode=mode, fatal=True)
+        d.update(x=x, k=(reset or {}).get("k", 0), scn=(reset or {}).get("scn"), sched=sched or [], thread=dthread, mode=mode, fatal=True)
         deaths.append(d)
         vlib.truncate_after_last_reset(log_path)
         ctx.rep.note("%s: fatal %s in unit %s (execution %s); the rest of that unit was not run" % (mode, d["event"], x, d["k"]))
@@ -259,6 +260,28 @@ def symbolize(ctx, exe, sp, scn_id, sched, tag):
     return vlib.classify_death(rc, se) or {}
 
 
+def replay(ctx, rec):
+    """./check C19 --replay <file>: re-execute exactly the recorded schedule of one scenario on the real code."""
+    rep = ctx.rep
+    scn = rec["scenario"]
+    is20 = bool(COMPONENTS.get(scn["comp"], {}).get("cxx20"))
+    exe = vlib.build(ctx, "race_driver" + ("20" if is20 else "17"), ["engines/race/driver.cpp"],
+                     lib=["inplace_stop_token.cpp", "async_stack.cpp", "exception.cpp"], std="c++20" if is20 else "c++17",
+                     defs=["RACE_CBS=1"] if is20 else [], extra=["-fsanitize-recover=address"])
+    sp = os.path.join(ctx.work, "scenarios.json")
+    json.dump([scn], open(sp, "w"))
+    d = symbolize(ctx, exe, sp, scn["id"], rec["schedule"], "replay")
+    rep.evaluations += 1
+    if d.get("event"):
+        out = dict(rec)
+        out.update(event=d["event"], asan=d.get("asan") or "", frame=d.get("frame") or "", where=d.get("where") or "",
+                   access=d.get("access") or "", frames=d.get("frames"), detail=d.get("stderr_tail", "")[-1200:],
+                   what="replay: %s %s %s at %s" % (d["event"], d.get("asan", ""), d.get("frame", ""), d.get("where", "")))
+        rep.violation(out)
+    else:
+        rep.note("replay: the recorded schedule ran to completion without a memory event")
+
+
 # ----------------------------------------------------------------------------- the engine
 def run(ctx):
     rep = ctx.rep
@@ -268,6 +291,8 @@ def run(ctx):
                "(stop_on_request: two requesters); the harness nested operation / child / body follows the documented usage")
     rep.assume("inplace_stop_source internals are atomic steps here (their interleavings are C03's subject); only the "
                "blocking of a callback's destructor on a running callback is a schedule point")
+    if isinstance(ctx.replay, dict) and ctx.replay.get("scenario") and ctx.replay.get("schedule") is not None:
+        return replay(ctx, ctx.replay)
     scns = gen_scenarios(ctx.tier)
     only = [c for c in os.environ.get("RACE_ONLY", "").split(",") if c]      # development aid (self-test of one component)
     if only:
@@ -330,7 +355,7 @@ def run(ctx):
         good = g.good_part()
         walks = vlib.edge_cover(good, g.inits)
         if ctx.tier == "thorough":
-            walks += vlib.random_walks(good, g.inits, 1500, ctx.rng)
+            walks += vlib.random_walks(good, g.inits, 400, ctx.rng)
         seen = set()
         nb = 0
         for w in walks:
@@ -373,9 +398,9 @@ def run(ctx):
         common = dict(exe=exe, sp=ksp, scns=kscns, beh=kbeh)
         runs.append(dict(common, mode="guided", tag="guided" + kind, args=["--mode", "guided", "--scenarios", ksp, "--behaviours", bp], total=len(kbeh)))
         runs.append(dict(common, mode="dfs", tag="dfs" + kind, total=len(kscns),
-                         args=["--mode", "dfs", "--scenarios", ksp, "--bound", 2 if q else 3, "--cap", 200 if q else 6000]))
+                         args=["--mode", "dfs", "--scenarios", ksp, "--bound", 2 if q else 3, "--cap", 200 if q else 1200]))
         runs.append(dict(common, mode="random", tag="random" + kind, total=len(kscns),
-                         args=["--mode", "random", "--scenarios", ksp, "--seed", ctx.seed, "--cap", 50 if q else 1500]))
+                         args=["--mode", "random", "--scenarios", ksp, "--seed", ctx.seed, "--cap", 50 if q else 300]))
     groups = collections.OrderedDict()
     reproduced = set()
 
